@@ -101,4 +101,49 @@ Proof.
     rewrite !reblock_columns. reflexivity.
 Qed.
 
+(* ---- 1-D / scalar operand: the block walk equals the column-wise application on the flattened columns ---- *)
+Lemma flat_map_cols (Y : Type) (g : list V -> Y) (t : list blk) :
+  flat_map (fun b => map g (k_cols V b)) t = map g (columns_of t).
+Proof.
+  induction t as [|b r IH]; [reflexivity|].
+  change (columns_of (b :: r)) with (k_cols V b ++ columns_of r).
+  cbn [flat_map]. rewrite map_app, IH. reflexivity.
+Qed.
+
+Lemma combine_app_firstn (X Y : Type) (l1 l2 : list X) (o : list Y) :
+  combine (l1 ++ l2) o = combine l1 (firstn (length l1) o) ++ combine l2 (skipn (length l1) o).
+Proof.
+  revert o. induction l1 as [|x r IH]; intros o; [reflexivity|].
+  destruct o as [|y s]; cbn; [destruct l2; reflexivity|]. f_equal. apply IH.
+Qed.
+
+Lemma rowwise_blocks_flat (t : list blk) (other : list V) :
+  rowwise_blocks V R f t other =
+  map (fun p => col_with V R f (fst p) (snd p)) (combine (columns_of t) other).
+Proof.
+  revert other. induction t as [|b r IH]; intros other; [reflexivity|].
+  change (columns_of (b :: r)) with (k_cols V b ++ columns_of r).
+  cbn [FrameAlign.rowwise_blocks]. rewrite IH. unfold FrameAlign.bwidth.
+  rewrite combine_app_firstn, map_app. reflexivity.
+Qed.
+
+Lemma combine_repeat (X Y : Type) (l : list X) (o : Y) :
+  combine l (repeat o (length l)) = map (fun c => (c, o)) l.
+Proof. induction l; cbn; congruence. Qed.
+
+Theorem tb_rowwise_layout_independent (t : list blk) (other : list V) :
+  M_tb_rowwise_g V R f t other = S_tb_rowwise V R f t other.
+Proof.
+  unfold M_tb_rowwise_g, S_tb_rowwise.
+  destruct other as [|o [|o2 r]]; try apply rowwise_blocks_flat.
+  rewrite flat_map_cols. unfold total_bwidth. rewrite combine_repeat, map_map. reflexivity.
+Qed.
+
+Theorem tb_colwise_layout_independent (t : list blk) (other : list V) :
+  M_tb_colwise_g V R f t other = S_tb_colwise V R f t other.
+Proof.
+  unfold M_tb_colwise_g, S_tb_colwise.
+  destruct other as [|o [|o2 r]]; apply flat_map_cols.
+Qed.
+
 End Facts.
